@@ -68,7 +68,17 @@ func c14RunSeq(steps []c14Step) (msg string) {
 	if err != nil {
 		return "harness: " + err.Error()
 	}
+	// an optional first step {k:"bufsize", n:N} configures the capacity of the in-memory buffer: with the default
+	// of 1000 entries the size-triggered flush inside the writer goroutine is never reached by short sequences
 	lw := NewLazyAOFWriter(under)
+	if len(steps) > 0 && steps[0].K == "bufsize" && steps[0].N > 0 {
+		lw.Close()
+		under, err = NewAOFWriter(path, 0)
+		if err != nil {
+			return "harness: " + err.Error()
+		}
+		lw = NewLazyAOFWriterWithConfig(under, DefaultLazyFlushInterval, DefaultForceSyncInterval, steps[0].N)
+	}
 	closed := false
 	defer func() {
 		if !closed {
@@ -259,6 +269,9 @@ func TestVerif_C14_lazyseq(t *testing.T) {
 	rapid.Check(t, func(rt *rapid.T) {
 		n := rapid.IntRange(3, 25).Draw(rt, "n")
 		var steps []c14Step
+		if b := rapid.SampledFrom([]int{0, 0, 1, 2, 3, 5, 8, 16}).Draw(rt, "bufsize"); b > 0 {
+			steps = append(steps, c14Step{K: "bufsize", N: b})
+		}
 		for i := 0; i < n; i++ {
 			k := rapid.SampledFrom(kinds).Draw(rt, "k")
 			st := c14Step{K: k}
